@@ -534,7 +534,7 @@ func init() {
 			if tier == "thorough" {
 				ns, mrs = []int{2, 3, 4, 5}, []int{0, 1, 2, 3}
 			}
-			for kind := 0; kind <= 3; kind++ {
+			for kind := 0; kind <= 4; kind++ {
 				for _, n := range ns {
 					for _, m := range mrs {
 						for fl := 0; fl <= 1; fl++ {
@@ -592,5 +592,32 @@ func init() {
 		},
 		Bounds:  map[string]string{"quick": "4 cookie states x 5 methods; password lengths {0(generated),1,4} x supplied lengths {0,1,4,5,16}", "thorough": "6 x 10 length pairs"},
 		Outside: []string{"age/session cryptography and cookies surviving a restart", "net.ParseIP itself"},
+	})
+}
+
+func init() {
+	register(&PropSpec{
+		ID:   "C20",
+		Pkgs: []string{"./shovel"},
+		Runs: func(tier string) []HRun {
+			var rs []HRun
+			mixes := [][2]int{{1, 0}, {0, 1}, {1, 1}, {2, 0}, {0, 2}}
+			if tier == "thorough" {
+				mixes = append(mixes, [2]int{2, 1}, [2]int{1, 2}, [2]int{2, 2})
+			}
+			for _, m := range mixes {
+				for sm := 0; sm <= 2; sm++ {
+					rs = append(rs, HRun{Pkg: "./shovel", Fn: "ZZ_C20_Load", Params: []int{m[0], m[1], sm}, MaxPaths: 400000})
+				}
+			}
+			return rs
+		},
+		Assumptions: []string{
+			"CONFIGURATION HALF ONLY (task list = enabled integrations x referenced sources, file wins a name clash, unknown source is a startup error, each task carries its source's settings and the reference's start/stop, context names equal the task's names). The SCHEDULE half of the property (Run/Restart: previous generation stopped, one runner per pair) is not covered by this check: it needs a scheduler-aware encoding of goroutines, channels and sync.WaitGroup that was not built; see DESIGN.md C20",
+			"the two database readers config.Integrations / config.Sources are cut (engine redirect, native rename) and return the symbolic lists; pgp.Exec of NewTask, jrpc2.MustURL and gzhttp.Transport are cut",
+			"integration names over {a,b}, enabled flags, 1-2 source references over {s1,s2,missing}, source placement (file/db/clash) are case-split; batch size, start, stop, chain id are solver variables; an integration does not list the same source twice; names are distinct within the file and within the table",
+		},
+		Bounds:  map[string]string{"quick": "(file, db) integration counts in {(1,0),(0,1),(1,1),(2,0),(0,2)} x 3 source placements", "thorough": "adds (2,1),(1,2),(2,2)"},
+		Outside: []string{"Manager.Run / Restart / runTask schedules", "compiled integrations"},
 	})
 }
